@@ -163,4 +163,103 @@ theorem split_returns (E : Ext) (boundary body : Str) (hcr : 13 ∉ boundary) :
       obtain ⟨h1, h2, h3⟩ := metaStart_spec boundary body hcr hm
       exact metaPart_returns E _ body ms me bs2 h1 h2 h3
 
+/-! ### What `parse_multipart_body_part` returns -/
+
+/-- Adjacent slices concatenate. -/
+theorem bytesSlice_append_adj {s : Str} {i j k : Nat} (hij : i ≤ j) (hjk : j ≤ k) (hk : k ≤ s.length)
+    {a b : Str} (ha : bytesSlice s i j = some a) (hb : bytesSlice s j k = some b) :
+    bytesSlice s i k = some (a ++ b) := by
+  unfold bytesSlice at ha hb ⊢
+  have h1 : i ≤ j ∧ j ≤ s.length := ⟨hij, by omega⟩
+  have h2 : j ≤ k ∧ k ≤ s.length := ⟨hjk, hk⟩
+  have h3 : i ≤ k ∧ k ≤ s.length := ⟨by omega, hk⟩
+  simp only [h1, h2, h3, and_self, if_true, Option.some.injEq] at ha hb ⊢
+  subst ha hb
+  -- (take k).drop i = (take j).drop i ++ (take k).drop j
+  have e1 : s.take k = s.take j ++ (s.take k).drop j := by
+    have := (List.take_append_drop j (s.take k)).symm
+    rwa [List.take_take, Nat.min_eq_left hjk] at this
+  conv => lhs; rw [e1]
+  rw [List.drop_append_of_le_length (by simp [List.length_take]; omega)]
+
+/-- What the line loop returns: the text from `headers_start` to `end` is
+`headers ++ empty line ++ content`. -/
+theorem lineLoop_ok_shape (bytes : Str) (end_ hs : Nat) (hend : end_ ≤ bytes.length) :
+    ∀ (fuel ls : Nat), hs ≤ ls → ls ≤ end_ → ∀ h c, lineLoop bytes end_ hs fuel ls = .ok (h, c) →
+      ∃ nl, (nl = [13, 10] ∨ nl = [10]) ∧ bytesSlice bytes hs end_ = some (h ++ nl ++ c) := by
+  intro fuel
+  induction fuel with
+  | zero => intro ls _ _ h c hr; simp [lineLoop] at hr
+  | succ f ih =>
+    intro ls h1 h2 h c hr
+    unfold lineLoop at hr
+    obtain ⟨sl, hsl, hlen⟩ := bytesSlice_some (s := bytes) h2 hend
+    rw [hsl] at hr
+    simp only at hr
+    cases hf : findByte 10 sl with
+    | none => rw [hf] at hr; simp at hr
+    | some k =>
+      rw [hf] at hr
+      simp only at hr
+      have hk : k < sl.length := findByte_lt hf
+      have hle : k + ls + 1 ≤ end_ := by omega
+      obtain ⟨line, hline, _⟩ := bytesSlice_some (s := bytes) (i := ls) (j := k + ls + 1) (by omega) (by omega)
+      rw [hline] at hr
+      simp only at hr
+      split at hr
+      · rename_i hnl
+        obtain ⟨hh, hhs, _⟩ := bytesSlice_some (s := bytes) h1 (by omega : ls ≤ bytes.length)
+        obtain ⟨cc, hcs, _⟩ := bytesSlice_some (s := bytes) hle hend
+        rw [hhs, hcs] at hr
+        simp only [Res.ok.injEq, Prod.mk.injEq] at hr
+        obtain ⟨rfl, rfl⟩ := hr
+        refine ⟨line, hnl, ?_⟩
+        have a1 := bytesSlice_append_adj h1 (by omega) (by omega) hhs hline
+        exact bytesSlice_append_adj (by omega) hle hend a1 hcs
+      · exact ih (k + ls + 1) (by omega) hle h c hr
+
+/-- **What `parse_multipart_body_part` returns**: the part `bytes[start..end]` is some text without
+a newline (the rest of the boundary line), a newline, the headers, an empty line (`\r\n` or `\n`)
+and the content. -/
+theorem parsePart_ok_shape (bytes : Str) (start end_ : Nat) (h1 : start ≤ end_) (h2 : end_ ≤ bytes.length)
+    {h c : Str} (hr : parsePart bytes start end_ = .ok (h, c)) :
+    ∃ pre nl, 10 ∉ pre ∧ (nl = [13, 10] ∨ nl = [10]) ∧
+      bytesSlice bytes start end_ = some (pre ++ [10] ++ h ++ nl ++ c) := by
+  unfold parsePart at hr
+  obtain ⟨sl, hsl, hlen⟩ := bytesSlice_some (s := bytes) h1 h2
+  rw [hsl] at hr
+  simp only at hr
+  cases hf : findByte 10 sl with
+  | none => rw [hf] at hr; simp at hr
+  | some k =>
+    rw [hf] at hr
+    simp only at hr
+    obtain ⟨pre, post, rfl, hpre, rfl⟩ := Ids.find_eq_some hf
+    have hle : pre.length + start + 1 ≤ end_ := by simp at hlen; omega
+    obtain ⟨nl, hnl, hrest⟩ := lineLoop_ok_shape bytes end_ _ h2 _ _ (Nat.le_refl _) hle h c hr
+    refine ⟨pre, nl, hpre, hnl, ?_⟩
+    -- `bytes[start..end] = pre ++ 10 :: post` and `post = bytes[headers_start..end]`
+    obtain ⟨a, ha, _⟩ := bytesSlice_some (s := bytes) (i := start) (j := pre.length + start + 1) (by omega) (by omega)
+    have hcat := bytesSlice_append_adj (by omega) hle h2 ha hrest
+    rw [hsl] at hcat
+    simp only [Option.some.injEq] at hcat
+    -- `a = pre ++ [10]`: both are the first `|pre| + 1` bytes of the slice
+    have hal : a.length = pre.length + 1 := by
+      have := bytesSlice_some (s := bytes) (i := start) (j := pre.length + start + 1) (by omega) (by omega)
+      obtain ⟨a', ha', hl'⟩ := this
+      rw [ha] at ha'
+      simp only [Option.some.injEq] at ha'
+      subst ha'
+      omega
+    have : a = pre ++ [10] := by
+      have h3 : (pre ++ 10 :: post).take (pre.length + 1) = pre ++ [10] := by
+        have : pre ++ 10 :: post = (pre ++ [10]) ++ post := by simp
+        rw [this]; exact List.take_left' (by simp)
+      have h4 : (a ++ (h ++ nl ++ c)).take (pre.length + 1) = a := List.take_left' hal
+      rw [← hcat] at h4
+      rw [h3] at h4
+      exact h4.symm
+    rw [hsl, hcat, this]
+    simp
+
 end Ruma.ScanMultipart
